@@ -32,12 +32,13 @@ def standard_pool(ctx, n_general, n_nested, n_long=0, tweak=None):
     return scs
 
 
-def run_scn(ctx, scenarios, monitor, witness_ids=(), rule="", assumptions=None, diff_filter=None, extra_fails=None, nontrivial=None, extra_cov=None, shrink_pred=None):
+def run_scn(ctx, scenarios, monitor, witness_ids=(), rule="", assumptions=None, diff_filter=None, extra_fails=None, nontrivial=None, extra_cov=None, shrink_pred=None, extra_diffs=None):
     build_and_audit(ctx)
     corpus = pool.corpus_scenarios(ctx.prop)
     scs = corpus + list(scenarios)
     r = pool.run_pool(scs, monitor=monitor, diff_filter=diff_filter)
     fails = list(r["fails"]) + list(extra_fails or [])
+    r["diffs"] = list(r["diffs"]) + list(extra_diffs or [])
     for w in witness_ids:
         try:
             msgs = witnesses.ALL[w]()
